@@ -71,6 +71,10 @@ def run(res, programs, tier):
         if "dashu_int" in P.units:
             c16._r16_1c(res, P, P.name)
         c16._r16_4(res, P, P.name)
+    from . import polarity
+    for P in sub:
+        if "dashu_float" in P.units and "dashu_ratio" in P.units and P.role == "main":
+            polarity.rule(res, P, P.name, "R10.4")
     cfgs_seen = sorted({p.name for p in sub})
     new = set(res.violations) - before
     known = _known_keys()
